@@ -106,8 +106,8 @@ InvAllOrNothing == Terminal(st) => AllOrNothing(sc, Outcome, st.fired, st.fs)
 KnownAtomicityDevs == {"single-open-before-dump", "multi-written-before-main-dump", "multi-written-before-sub-dump"}
 InvAllOrNothingModuloKnown == Terminal(st) => (AllOrNothing(sc, Outcome, st.fired, st.fs) \/ DevName(sc, st) \in KnownAtomicityDevs)
 \* C18, clause 3 -- violated exactly by file-name collisions (MC_Save_cex_rep.cfg expects the counterexample)
-InvSavedReparses == Terminal(st) => SavedReparses(sc, Outcome, st.fs)
-InvSavedReparsesModuloKnown == Terminal(st) => (SavedReparses(sc, Outcome, st.fs) \/ DevName(sc, st) \in {"multi-name-collision", "inplace-content-emptied"})
+InvSavedReparses == Terminal(st) => SavedReparses(sc, Outcome, st.fs, st.refs)
+InvSavedReparsesModuloKnown == Terminal(st) => (SavedReparses(sc, Outcome, st.fs, st.refs) \/ DevName(sc, st) \in {"multi-name-collision", "inplace-content-emptied"})
 \* the reason the algorithm gives for a failure is one the scenario really contains; it succeeds only when none is there
 InvCauseSound == /\ st.pc = "failed" => st.cause \in Causes(sc, st.fired)
                  /\ st.pc = "done" => Causes(sc, st.fired) = {}
@@ -126,5 +126,5 @@ EmitBehaviour ==
   (Emit /\ Terminal(st)) =>
     PrintT(ToJson([sc |-> ScJson, out |-> Outcome, cause |-> st.cause, fired |-> st.fired, fs |-> FsSeq(st.fs),
                    hist |-> [j \in 1..Len(st.hist) |-> <<st.hist[j][1], st.hist[j][2], FsSeq(st.hist[j][3])>>],
-                   dev |-> DevName(sc, st), atomic |-> MustBeAtomic(sc, st.fired)]))
+                   dev |-> DevName(sc, st), atomic |-> MustBeAtomic(sc, st.fired), refs |-> st.refs]))
 =============================================================================
